@@ -43,9 +43,11 @@ TreeVerdict ==
 OnTree == /\ Ev.e = "Tree" /\ bad' = (IF TreeVerdict # "" THEN Flag(TreeVerdict) ELSE bad) /\ UNCHANGED <<st, cand, tree>>
 OnSurvived == /\ Ev.e = "Survived" /\ bad' = (IF Ev.v # 1 THEN Flag("ProcessSurvives") ELSE bad) /\ UNCHANGED <<st, cand, tree>>
 OnRace == /\ Ev.e = "Race" /\ bad' = Flag("NoDataRace") /\ UNCHANGED <<st, cand, tree>>
+(* Anomaly s: the stress observed a corrupted value (a future result carrying a message and an error together) *)
+OnAnomaly == /\ Ev.e = "Anomaly" /\ bad' = Flag("NoCorruptedValue") /\ UNCHANGED <<st, cand, tree>>
 OnReset == /\ Ev.e = "Reset" /\ st' = <<>> /\ cand' = <<>> /\ tree' = <<>> /\ UNCHANGED bad
-Other == Ev.e \notin {"Acc", "Tree", "Survived", "Race", "Reset"} /\ UNCHANGED <<bad, st, cand, tree>>
-Next == l <= Len(TLog) /\ l' = l + 1 /\ (OnAcc \/ OnTree \/ OnSurvived \/ OnRace \/ OnReset \/ Other)
+Other == Ev.e \notin {"Acc", "Tree", "Survived", "Race", "Reset", "Anomaly"} /\ UNCHANGED <<bad, st, cand, tree>>
+Next == l <= Len(TLog) /\ l' = l + 1 /\ (OnAcc \/ OnTree \/ OnSurvived \/ OnRace \/ OnAnomaly \/ OnReset \/ Other)
 Spec == Init /\ [][Next]_vars
 Ok == bad = ""
 Accepted == TLCGet("stats").diameter - 1 = Len(TLog)
